@@ -33,8 +33,8 @@ Definition is_func (c : stmt) : bool := match c with SFunc _ _ _ _ _ => true | _
 
 Definition has_arg_named (y : str) (l : list arg) : bool := existsb (fun a => str_eqb (a_name a) y) l.
 
-Definition func_has_posarg (y : str) (c : stmt) : bool :=
-  match c with SFunc _ a _ _ _ => has_arg_named y (ar_args a) | _ => false end.
+Definition func_named (y : str) (c : stmt) : bool :=
+  match c with SFunc n _ _ _ _ => str_eqb n y | _ => false end.
 
 Definition annassign_named (y : str) (c : stmt) : bool :=
   match c with
@@ -61,82 +61,61 @@ Fixpoint split_member (x : str) (b : list stmt) : option (list stmt * stmt * lis
          end
   end.
 
-Definition before_member (x : str) (b : list stmt) : list stmt :=
-  match split_member x b with Some (pre, _, _) => pre | None => b end.
-
-(* ------------------------------------------------------------------ finding classes *)
+(* ------------------------------------------------------------------ finding classes (code as of /repo 6d00342) *)
 Inductive c15_class : Type :=
-| K_function_before        (* a FunctionDef precedes the addressed definition in a scope the cursor walks: a segment is popped at it *)
-| K_keyword_only           (* the addressed argument is keyword-only: only args.args is searched *)
 | K_deep_path              (* more than two segments and not class.method.arg: _location is parent + child only *)
 | K_multi_target_assign    (* an Assign with several targets in the scope: _location carries the last target only *)
-| K_stray_argument         (* an earlier function of the scope has a positional argument with the addressed name *)
-| K_annassign_prefix       (* x.y where x is an annotated assignment: x itself is returned *)
+| K_annassign_prefix       (* x.y... where x is an annotated assignment: x itself is returned *)
 | K_scope_self_name        (* C.C : the class itself is returned *)
-| K_shadowed_definition    (* x is first bound by a plain assignment and later by a class *)
-| K_unresolved_fallthrough. (* the path does not exist and the leftover segment matches something later in the scope *)
+| K_shadowed_definition    (* x is first bound by a plain assignment and later by a class, function or annotated assignment *)
+| K_unresolved_fallthrough. (* x.y with x no scope: the leftover segment y matches an annotated assignment, a class, or the
+                               last statement of the module *)
 
 Definition class_name_C15 (k : c15_class) : str :=
   match k with
-  | K_function_before => L "function-before-addressed-definition"
-  | K_keyword_only => L "keyword-only-argument"
   | K_deep_path => L "path-deeper-than-parent-child"
   | K_multi_target_assign => L "multi-target-assignment"
-  | K_stray_argument => L "same-named-argument-of-earlier-function"
   | K_annassign_prefix => L "annotated-assignment-as-prefix"
   | K_scope_self_name => L "member-named-like-its-class"
-  | K_shadowed_definition => L "name-rebound-by-later-class"
+  | K_shadowed_definition => L "name-rebound-by-later-definition"
   | K_unresolved_fallthrough => L "unresolved-leftover-segment-matches-later"
   end.
 
 (* the last step of a lookup: member y of the scope whose body is b *)
-Definition leaf_lookup_class (y : str) (b : list stmt) : option c15_class :=
-  if negb (forallb assign_ok b) then Some K_multi_target_assign
-  else if existsb (func_has_posarg y) (before_member y b) then Some K_stray_argument
-  else None.
+Definition leaf_lookup_class (b : list stmt) : option c15_class :=
+  if negb (forallb assign_ok b) then Some K_multi_target_assign else None.
 
-(* argument z of a function reached properly; post = the statements after it in its scope *)
-Definition arg_lookup_class (z : str) (args : arguments) (post : list stmt) : option c15_class :=
-  if has_arg_named z (ar_args args) then None
-  else if has_arg_named z (ar_kwonly args) then Some K_keyword_only
-  else if existsb (fun c => func_has_posarg z c || annassign_named z c || class_named z c) post
-       then Some K_unresolved_fallthrough
-  else None.
+Definition last_func_named (y : str) (m : list stmt) : bool :=
+  match rev m with c :: _ => func_named y c | [] => false end.
 
-(* x.y where x is no function, class or annotated assignment of the module *)
+(* x.y where x is no function, class or annotated assignment at the point the cursor reaches it *)
 Definition unresolved_head_class (x y : str) (m : list stmt) : option c15_class :=
-  if existsb is_func m then Some K_function_before
-  else if existsb (annassign_named x) m then Some K_annassign_prefix
-  else if existsb (class_named x) m then Some K_shadowed_definition
-  else if existsb (fun c => annassign_named y c || class_named y c) m then Some K_unresolved_fallthrough
+  if existsb (fun c => func_named x c || annassign_named x c || class_named x c) m then Some K_shadowed_definition
+  else if existsb (fun c => annassign_named y c || class_named y c) m || last_func_named y m
+       then Some K_unresolved_fallthrough
   else None.
 
 Definition finding_class_C15 (m : module) (q : list str) : option c15_class :=
   match q with
   | [] => None
-  | [x] => leaf_lookup_class x m
+  | [x] => leaf_lookup_class m
   | [x; y] =>
     match split_member x m with
-    | Some (pre, SFunc _ args _ _ _, post) =>
-      if existsb is_func pre then Some K_function_before else arg_lookup_class y args post
-    | Some (pre, SClass _ _ body _, _) =>
-      if existsb is_func pre then Some K_function_before
-      else if str_eqb x y then Some K_scope_self_name
-      else leaf_lookup_class y body
-    | Some (pre, SAnnAssign _ _ _, _) =>
-      if existsb is_func pre then Some K_function_before else Some K_annassign_prefix
+    | Some (_, SFunc _ _ _ _ _, _) => None
+    | Some (_, SClass _ _ body _, _) =>
+      if str_eqb x y then Some K_scope_self_name else leaf_lookup_class body
+    | Some (_, SAnnAssign _ _ _, _) => Some K_annassign_prefix
     | _ => unresolved_head_class x y m
     end
   | [x; y; z] =>
     match split_member x m with
-    | Some (pre, SClass _ _ body _, _) =>
-      if existsb is_func pre then Some K_function_before
-      else
-        match split_member y body with
-        | Some (pre', SFunc _ args _ _ _, post') =>
-          if existsb is_func pre' then Some K_function_before else arg_lookup_class z args post'
-        | _ => Some K_deep_path
-        end
+    | Some (_, SFunc _ _ _ _ _, _) => None                 (* a function has no members: None on both sides *)
+    | Some (_, SClass _ _ body _, _) =>
+      match split_member y body with
+      | Some (_, SFunc _ _ _ _ _, _) => None
+      | _ => Some K_deep_path
+      end
+    | Some (_, SAnnAssign _ _ _, _) => Some K_annassign_prefix
     | _ => Some K_deep_path
     end
   | _ => Some K_deep_path
